@@ -33,6 +33,7 @@ pub fn plan() -> Plan {
         quick_histories: 500,
         thorough_histories: 80000,
         s5: Some((2, 30, s4common::s5_default(true, 0))),
+        enumerate_session_end: None,
     }
 }
 
